@@ -579,6 +579,12 @@ class Tr:
                 v = self.fresh("v")
                 return ("match", t, [([f"some {v}"], k(v)), (["none"], ctx.panic(self.site("unwrap on None")))])
             return self.ex(recv, ctx, with_t)
+        if kind == "unwrap_result":   # Result::unwrap(): Err(_) panics
+            def with_t(t):
+                self.may_panic = True
+                v = self.fresh("v")
+                return ("match", t, [([f".ok {v}"], k(v)), ([".error _"], ctx.panic(self.site("unwrap on Err")))])
+            return self.ex(recv, ctx, with_t)
         if kind == "option_map":  # recv.map(|x| body)
             clo = args[0]
             if clo[0] != "closure" or len(clo[1]) != 1:
